@@ -6,11 +6,11 @@ processes that interleave at atomic steps.  One step = at most one access to a s
 (`cache.workload`, `cache.certRoot`, `configTrustBundle`, `generateMutex`, the delayed queue) or
 one external call (the CA client, the secret handler).  Purely local computation is merged into
 the neighbouring step; two writes are merged only where the second one commutes with every step
-of every other process (`SetWorkload(&item)` + `PushDelayed` in registerSecret; `SetWorkload(nil)`
-+ `OnSecretUpdate` in the timer callback and in UpdateConfigTrustBundle; the root comparison,
+of every other process (`SetWorkload(&item)` + `PushDelayed` in registerSecret; the root comparison,
 `SetRoot`, `OnSecretUpdate(ROOTCA)` and, for ROOTCA, the read of `configTrustBundle` for the merge:
 every access to `certRoot` on the CA path is protected by `generateMutex`, so that block commutes
-with the steps of all other processes).
+with the steps of all other processes).  `SetWorkload(nil)` and the following `OnSecretUpdate(default)`
+are two steps: their order is part of the property (the callback must find the cache empty).
 
 Abstractions: PEM root certificates are `Nat` ids (a bundle = list of ids in byte order, compared
 with list equality as `bytes.Equal` does); a private key / leaf certificate is the index of the CSR
@@ -53,8 +53,12 @@ structure Ret where
   root : Option (List Nat) := none
   deriving DecidableEq, Repr
 
-/-- `OnSecretUpdate(resourceName)` callbacks. -/
-inductive Ev | rootca | workload
+/-- `OnSecretUpdate(resourceName)` callbacks. A `default` callback records whether the workload cache
+    was empty at the instant of the callback: a subscriber that re-requests from inside the callback
+    gets a new certificate only then (otherwise it hits the old one and nobody renews it). -/
+inductive Ev
+  | rootca
+  | workload (cacheEmpty : Bool)
   deriving DecidableEq, Repr
 
 /-- A task pushed to the delayed queue by registerSecret. -/
@@ -108,11 +112,13 @@ inductive Proc
   | gDone (ret : Ret)
   -- rotation callback of queue entry `e`
   | tCheck (e : Nat)                        -- read cache.workload, compare CreatedTime
-  | tClear (e : Nat)                        -- SetWorkload(nil); OnSecretUpdate(default)
+  | tClear (e : Nat)                        -- SetWorkload(nil)
+  | tNotify (e : Nat) (mark : Nat)          -- OnSecretUpdate(default); mark = ghost: `stores` when it cleared
   | tDone (e : Nat) (cleared : Bool)
   -- UpdateConfigTrustBundle(b)
   | uSet (b : List Nat)                     -- compare, store, OnSecretUpdate(ROOTCA)
-  | uClear                                  -- SetWorkload(nil); OnSecretUpdate(default)
+  | uClear                                  -- SetWorkload(nil)
+  | uNotify (mark : Nat)                    -- OnSecretUpdate(default)
   | uDone (changed : Bool)
   deriving DecidableEq, Repr
 
@@ -137,8 +143,13 @@ def finish (y : Sys) (p : Nat) (locked : Bool) (ret : Ret) : Sys :=
   if locked then { y with procs := upd y.procs p (.gUnlock ret) }
   else { y with procs := upd y.procs p (.gDone ret), doneAt := upd y.doneAt p y.st.clears }
 
+/-- `sc.cache.SetWorkload(nil)`. -/
 def clearWorkload (s : State) : State :=
-  { s with workload := none, clears := s.clears + 1, okSinceClear := 0, events := s.events ++ [Ev.workload] }
+  { s with workload := none, clears := s.clears + 1, okSinceClear := 0 }
+
+/-- `sc.OnSecretUpdate(default)`: the callback observes the cache as it is now. -/
+def notifyWorkload (s : State) : State :=
+  { s with events := s.events ++ [Ev.workload s.workload.isNone] }
 
 def newItem (s : State) (now ttl : Int) (signer : Nat) (bundle : List Nat) : Item :=
   { key := s.caCalls, cert := s.caCalls,
@@ -214,12 +225,14 @@ def step (y : Sys) (p : Nat) (i : Input) : Sys :=
       if c.created = en.created then { y with procs := upd y.procs p (.tClear e) }
       else { y with procs := upd y.procs p (.tDone e false) }
     | _, _ => { y with procs := upd y.procs p (.tDone e false) }
-  | .tClear e => { y with st := clearWorkload y.st, procs := upd y.procs p (.tDone e true) }
+  | .tClear e => { y with st := clearWorkload y.st, procs := upd y.procs p (.tNotify e y.st.stores) }
+  | .tNotify e _ => { y with st := notifyWorkload y.st, procs := upd y.procs p (.tDone e true) }
   | .tDone _ _ => y
   | .uSet b =>
     if y.st.cfg = b then { y with procs := upd y.procs p (.uDone false) }
     else { y with st := { y.st with cfg := b, events := y.st.events ++ [Ev.rootca] }, procs := upd y.procs p .uClear }
-  | .uClear => { y with st := clearWorkload y.st, procs := upd y.procs p (.uDone true) }
+  | .uClear => { y with st := clearWorkload y.st, procs := upd y.procs p (.uNotify y.st.stores) }
+  | .uNotify _ => { y with st := notifyWorkload y.st, procs := upd y.procs p (.uDone true) }
   | .uDone _ => y
 
 def markFired (q : List Entry) (e : Nat) : List Entry :=
